@@ -15,11 +15,11 @@ variable (T : Stat) {s : Store} {out : CSem2.Outcome} {lp : Bool × Bool} {brk c
   {nd nd' : Nat} {pre post : List Item} {env : Env} {M : Mem}
 
 theorem sim_exprstmt (n : Nat) (hc : CallOK T n) (e : Expr3)
-    (hfr : frag T.P T.cnts (.expr e) = true) (hex : exec T.S.cs T.P (n + 1) s (.expr e) = some out)
+    (hfr : frag T.P T.cnts T.W (.expr e) = true) (hex : exec T.S.cs T.P (n + 1) s (.expr e) = some out)
     (hwt : Stmt.wt T.vtys T.ret lp.1 lp.2 nd (.expr e) = some nd') (hp : Pos T c nd pre)
     (hext : Ext T (funcstmt T.S.cs brk cont (.expr e) c).ctx)
     (hits : T.S.its = pre ++ (funcstmt T.S.cs brk cont (.expr e) c).items ++ post)
-    (inv : SInv T.M0 T.S.cs T.cnts T.σ T.vtys s env M) :
+    (inv : SInv T.M0 T.S.cs T.cnts T.W T.σ T.vtys s env M) :
     Post T lp brk cont (T.at env M pre) (pre ++ (funcstmt T.S.cs brk cont (.expr e) c).items)
       (funcstmt T.S.cs brk cont (.expr e) c).ctx out := by
   simp only [exec, Option.map_eq_some_iff] at hex
@@ -34,11 +34,11 @@ theorem sim_exprstmt (n : Nat) (hc : CallOK T n) (e : Expr3)
   · cases hwt
 
 theorem sim_ret (n : Nat) (hc : CallOK T n) (e : Expr3)
-    (hfr : frag T.P T.cnts (.ret e) = true) (hex : exec T.S.cs T.P (n + 1) s (.ret e) = some out)
+    (hfr : frag T.P T.cnts T.W (.ret e) = true) (hex : exec T.S.cs T.P (n + 1) s (.ret e) = some out)
     (hwt : Stmt.wt T.vtys T.ret lp.1 lp.2 nd (.ret e) = some nd') (hp : Pos T c nd pre)
     (hext : Ext T (funcstmt T.S.cs brk cont (.ret e) c).ctx)
     (hits : T.S.its = pre ++ (funcstmt T.S.cs brk cont (.ret e) c).items ++ post)
-    (inv : SInv T.M0 T.S.cs T.cnts T.σ T.vtys s env M) :
+    (inv : SInv T.M0 T.S.cs T.cnts T.W T.σ T.vtys s env M) :
     Post T lp brk cont (T.at env M pre) (pre ++ (funcstmt T.S.cs brk cont (.ret e) c).items)
       (funcstmt T.S.cs brk cont (.ret e) c).ctx out := by
   simp only [exec, Option.map_eq_some_iff] at hex
@@ -56,17 +56,19 @@ theorem sim_ret (n : Nat) (hc : CallOK T n) (e : Expr3)
   · cases hwt
 
 theorem sim_assign (n : Nat) (hc : CallOK T n) (i : Nat) (t : CSem.Ty) (e : Expr3)
-    (hfr : frag T.P T.cnts (.assign i t e) = true)
+    (hfr : frag T.P T.cnts T.W (.assign i t e) = true)
     (hex : exec T.S.cs T.P (n + 1) s (.assign i t e) = some out)
     (hwt : Stmt.wt T.vtys T.ret lp.1 lp.2 nd (.assign i t e) = some nd') (hp : Pos T c nd pre)
     (hext : Ext T (funcstmt T.S.cs brk cont (.assign i t e) c).ctx)
     (hits : T.S.its = pre ++ (funcstmt T.S.cs brk cont (.assign i t e) c).items ++ post)
-    (inv : SInv T.M0 T.S.cs T.cnts T.σ T.vtys s env M) :
+    (inv : SInv T.M0 T.S.cs T.cnts T.W T.σ T.vtys s env M) :
     Post T lp brk cont (T.at env M pre) (pre ++ (funcstmt T.S.cs brk cont (.assign i t e) c).items)
       (funcstmt T.S.cs brk cont (.assign i t e) c).ctx out := by
   simp only [exec, Option.map_eq_some_iff] at hex
   obtain ⟨v, hev, rfl⟩ := hex
   simp only [frag] at hfr
+  rw [Bool.and_eq_true, decide_eq_true_eq] at hfr
+  obtain ⟨hfr, hWi⟩ := hfr
   simp only [Stmt.wt] at hwt
   split at hwt
   · rename_i hw
@@ -80,24 +82,26 @@ theorem sim_assign (n : Nat) (hc : CallOK T n) (i : Nat) (t : CSem.Ty) (e : Expr
     rw [hty] at hrep hrange
     have hslot : T.σ.getD i 0 = c.slots.getD i 0 := hext'.1 i (by
       show i < c.slots.length; rw [hp.nslots]; exact hi)
-    obtain ⟨M', hr2, inv2⟩ := sim_store T i t _ _ hits1 hslot hkt hval hrange hrep inv'
+    obtain ⟨M', hr2, inv2⟩ := sim_store T i t _ _ hits1 hslot hkt hWi hval hrange hrep inv'
     refine ⟨hp.jump, k + 1, env', M', ?_, inv2⟩
     rw [← List.append_assoc]
     exact hreach.trans hr2
   · cases hwt
 
 theorem sim_decl_init (n : Nat) (hc : CallOK T n) (i : Nat) (t : CSem.Ty) (e : Expr3)
-    (hfr : frag T.P T.cnts (.decl i t (some e)) = true)
+    (hfr : frag T.P T.cnts T.W (.decl i t (some e)) = true)
     (hex : exec T.S.cs T.P (n + 1) s (.decl i t (some e)) = some out)
     (hwt : Stmt.wt T.vtys T.ret lp.1 lp.2 nd (.decl i t (some e)) = some nd') (hp : Pos T c nd pre)
     (hext : Ext T (funcstmt T.S.cs brk cont (.decl i t (some e)) c).ctx)
     (hits : T.S.its = pre ++ (funcstmt T.S.cs brk cont (.decl i t (some e)) c).items ++ post)
-    (inv : SInv T.M0 T.S.cs T.cnts T.σ T.vtys s env M) :
+    (inv : SInv T.M0 T.S.cs T.cnts T.W T.σ T.vtys s env M) :
     Post T lp brk cont (T.at env M pre) (pre ++ (funcstmt T.S.cs brk cont (.decl i t (some e)) c).items)
       (funcstmt T.S.cs brk cont (.decl i t (some e)) c).ctx out := by
   simp only [exec, Option.map_eq_some_iff] at hex
   obtain ⟨v, hev, rfl⟩ := hex
   simp only [frag] at hfr
+  rw [Bool.and_eq_true, decide_eq_true_eq] at hfr
+  obtain ⟨hfr, hWi⟩ := hfr
   simp only [Stmt.wt] at hwt
   split at hwt
   · rename_i hw
@@ -138,7 +142,7 @@ theorem sim_decl_init (n : Nat) (hc : CallOK T n) (i : Nat) (t : CSem.Ty) (e : E
       rw [getD_append_right _ _ (by rw [hp.nslots]; exact Nat.le_refl _)]
       have : i - c.slots.length = 0 := by rw [hp.nslots]; omega
       rw [this]; simp
-    obtain ⟨M', hr2, inv2⟩ := sim_store T i t _ _ hits1 hslot hkt hval hrange hrep inv'
+    obtain ⟨M', hr2, inv2⟩ := sim_store T i t _ _ hits1 hslot hkt hWi hval hrange hrep inv'
     refine ⟨by show c1.jump = none; rw [← hc1]; exact hp.jump, k + 1, env', M', ?_, ?_⟩
     · rw [← List.append_assoc]
       exact hreach.trans hr2
@@ -152,11 +156,11 @@ theorem sim_decl_init (n : Nat) (hc : CallOK T n) (i : Nat) (t : CSem.Ty) (e : E
 theorem sim_astore (n : Nat) (hc : CallOK T n) (arr : Nat) (t : CSem.Ty) (cnt xb : Nat) (idx : Expr)
     (e : Expr3)
     (hex : exec T.S.cs T.P (n + 1) s (.astore arr t cnt xb idx e) = some out)
-    (hfr : frag T.P T.cnts (.astore arr t cnt xb idx e) = true)
+    (hfr : frag T.P T.cnts T.W (.astore arr t cnt xb idx e) = true)
     (hwt : Stmt.wt T.vtys T.ret lp.1 lp.2 nd (.astore arr t cnt xb idx e) = some nd') (hp : Pos T c nd pre)
     (hext : Ext T (funcstmt T.S.cs brk cont (.astore arr t cnt xb idx e) c).ctx)
     (hits : T.S.its = pre ++ (funcstmt T.S.cs brk cont (.astore arr t cnt xb idx e) c).items ++ post)
-    (inv : SInv T.M0 T.S.cs T.cnts T.σ T.vtys s env M) :
+    (inv : SInv T.M0 T.S.cs T.cnts T.W T.σ T.vtys s env M) :
     Post T lp brk cont (T.at env M pre)
       (pre ++ (funcstmt T.S.cs brk cont (.astore arr t cnt xb idx e) c).items)
       (funcstmt T.S.cs brk cont (.astore arr t cnt xb idx e) c).ctx out := by
@@ -167,8 +171,8 @@ theorem sim_astore (n : Nat) (hc : CallOK T n) (arr : Nat) (t : CSem.Ty) (cnt xb
     simp only [Option.some.injEq] at hex
     subst hex
     simp only [frag, Bool.and_eq_true, decide_eq_true_eq] at hfr
-    have hfe : efrag T e := by simp only [efrag, Bool.and_eq_true]; exact hfr.2
-    obtain ⟨⟨⟨hc1, hcn⟩, hxb⟩, _⟩ := hfr
+    have hfe : efrag T e := by simp only [efrag, Bool.and_eq_true]; exact hfr.1.2
+    obtain ⟨⟨⟨⟨hc1, hcn⟩, hxb⟩, _⟩, hWa⟩ := hfr
     subst hxb
     simp only [Stmt.wt] at hwt
     split at hwt
@@ -210,7 +214,7 @@ theorem sim_astore (n : Nat) (hc : CallOK T n) (arr : Nat) (t : CSem.Ty) (cnt xb
         hits1 inv
       rw [hty] at hrep1 hrgv
       -- the address
-      obtain ⟨a, M', ha1, hst, habound, inv2⟩ := inv1.storeAt hkt he hrgv (storeVal_of_rep hrep1)
+      obtain ⟨a, M', ha1, hst, habound, inv2⟩ := inv1.storeAt hkt hWa he hrgv (storeVal_of_rep hrep1)
       have hvars : VarsIn (setM T.S M) c.slots (T.vtys.take nd) s env1 := by
         intro i t' v' ht hv'
         obtain ⟨ht', hi⟩ := take_sub ht
@@ -242,7 +246,7 @@ theorem sim_astore (n : Nat) (hc : CallOK T n) (arr : Nat) (t : CSem.Ty) (cnt xb
       have hfrall : Frame c.lastid (lowerAddr T.S.cs (c.upd (exprOut3 T.S.cs c e).ctx).slots
           (c.upd (exprOut3 T.S.cs c e).ctx).ctx (c.slots.getD arr 0) t idx).ctx.lastid env1 env2 :=
         Frame.mono hfr2 hl1 (Nat.le_refl _)
-      have inv3 : SInv T.M0 T.S.cs T.cnts T.σ T.vtys
+      have inv3 : SInv T.M0 T.S.cs T.cnts T.W T.σ T.vtys
           (s.set (ecell arr (xbase T.cnts arr) iv.toNat) (some v)) env2 M' :=
         inv2.env (slots_kept hp hpre hfut hfrall)
       refine ⟨hp.jump, n1 + n2 + 1, env2, M', ?_, inv3⟩
